@@ -274,9 +274,11 @@ def build():
     add("Image.diagonal", Image.diagonal, "genDiagonal", ["self"], ctx=["sqrtF"], ret_type="Rat", monadic=False,
         expr=[("np.sqrt($x)", "(sqrtF {x})"), ("np.sum($x)", "(vsum {x})")])
     add("Image.constrain_points_to_bounds", Image.constrain_points_to_bounds, "genConstrainPointsToBounds",
-        ["self", "points"], ret_type="Vec", monadic=False,
-        expr=[("$x < 0", "(vltZero {x})")],
-        stmt=[("$b[$m] = $s[$m]", "b", "(vwhere {m} {s} {b})"), ("$b[$m] = $v", "b", "(vwhere {m} {v} {b})")])
+        ["self", "points"], ret_type="Vec", monadic=False, ret="(AsVec.vec {e})",
+        # `points.copy()` is a value of type `Owned Vec`, and only an owned array may be updated in place: a dropped copy
+        # (the caller's array updated in place) does not type-check
+        expr=[("$x.copy()", "(Owned.mk {x})"), ("$x < 0", "(vltZero (AsVec.vec {x}))")],
+        stmt=[("$b[$m] = $s[$m]", "b", "(Owned.vwhere {m} {s} {b})"), ("$b[$m] = $v", "b", "(Owned.vwhere {m} {v} {b})")])
     # ---- compositions
     add("transform_about_centre", C.transform_about_centre, "genTransformAboutCentreT", ["obj", "transform"],
         ret_type="TObj", monadic=False,
